@@ -4,31 +4,6 @@ From NV Require Import Bytes UcDefs GenUcTables RenDefs RenProps CLite CLiteProp
 Import ListNotations.
 Local Open Scope Z_scope.
 
-Definition tab_block (tab : list (Z * Z)) : block := flat_map (fun ab => [VInt (fst ab); VInt (snd ab)]) tab.
-Definition int_ok (z : Z) : Prop := -2147483648 <= z <= 2147483647.
-Definition tab_ok (tab : list (Z * Z)) : Prop := Forall (fun ab => int_ok (fst ab) /\ int_ok (snd ab)) tab.
-
-Lemma wrap_int_ok z : int_ok z -> wrap I32 z = z.
-Proof.
-  intro H. unfold int_ok in H. unfold wrap. cbn [ity_bits ity_signed andb].
-  change (2 ^ 32) with 4294967296. change (2 ^ (32 - 1)) with 2147483648.
-  destruct (Z.leb_spec 2147483648 (z mod 4294967296)) as [L|L].
-  - assert (z < 0) by (destruct (Z.lt_ge_cases z 0); [assumption|rewrite Z.mod_small in L by lia; lia]).
-    rewrite <- (Z.mod_add z 1 4294967296) by lia. rewrite Z.mod_small by lia. lia.
-  - assert (0 <= z) by (destruct (Z.lt_ge_cases z 0); [|assumption]; exfalso;
-      rewrite <- (Z.mod_add z 1 4294967296) in L by lia; rewrite Z.mod_small in L by lia; lia).
-    apply Z.mod_small. lia.
-Qed.
-
-Lemma nth_error_tab_block tab : forall i, (i < length tab)%nat ->
-  nth_error (tab_block tab) (2 * i) = Some (VInt (fst (nth i tab (0, 0)))) /\
-  nth_error (tab_block tab) (2 * i + 1) = Some (VInt (snd (nth i tab (0, 0)))).
-Proof.
-  induction tab as [|ab tab IH]; intros i Hi; cbn [length] in Hi; [lia|].
-  destruct i as [|i]; [split; reflexivity|].
-  replace (2 * S i)%nat with (S (S (2 * i))) by lia. replace (S (S (2 * i)) + 1)%nat with (S (S (2 * i + 1))) by lia.
-  cbn [tab_block flat_map app nth_error nth]. apply IH. lia.
-Qed.
 Lemma load_tab m g tab i : nth_error m g = Some (tab_block tab) -> 0 <= i < Z.of_nat (length tab) ->
   load m g (2 * i) = Ok (VInt (fst (nthp tab i))) /\ load m g (2 * i + 1) = Ok (VInt (snd (nthp tab i))).
 Proof.
@@ -44,12 +19,6 @@ Proof.
   - unfold tab_ok in H. rewrite Forall_forall in H. apply H. apply nth_In. exact L.
   - rewrite nth_overflow by exact L. cbn. unfold int_ok. lia.
 Qed.
-
-Ltac norm_off :=
-  repeat match goal with
-         | |- context [0 + 2 * ?x + 1 * 0] => replace (0 + 2 * x + 1 * 0) with (2 * x) by lia
-         | |- context [0 + 2 * ?x + 1 * 1] => replace (0 + 2 * x + 1 * 1) with (2 * x + 1) by lia
-         end.
 
 Definition find_loop : stmt := match fn_body cf_find with SSeq _ (SSeq _ (SSeq _ (SSeq w _))) => w | _ => SSkip end.
 Definition find_ret : stmt := match fn_body cf_find with SSeq _ (SSeq _ (SSeq _ (SSeq _ r))) => r | _ => SSkip end.
@@ -119,26 +88,6 @@ Lemma gb_dwchars_eq : gb_dwchars = tab_block dwchars. Proof. vm_compute. reflexi
 Lemma gb_zwchars_eq : gb_zwchars = tab_block zwchars. Proof. vm_compute. reflexivity. Qed.
 Lemma gb_bchars_eq : gb_bchars = tab_block bchars. Proof. vm_compute. reflexivity. Qed.
 
-Definition tab_okb (tab : list (Z * Z)) : bool :=
-  forallb (fun ab => (-2147483648 <=? fst ab) && (fst ab <=? 2147483647) && (-2147483648 <=? snd ab) && (snd ab <=? 2147483647)) tab.
-Lemma tab_okb_sound tab : tab_okb tab = true -> tab_ok tab.
-Proof.
-  unfold tab_okb, tab_ok. rewrite forallb_forall, Forall_forall. intros H ab Hin. specialize (H ab Hin).
-  unfold int_ok. lia.
-Qed.
-
-(* LEN(tab) = sizeof(tab) / sizeof(tab[0]) is a closed computation *)
-Ltac eval_len tab :=
-  match goal with
-  | |- context [if ?a =? 0 then Err EDivZero else chk U64 (?x ÷ ?a)] =>
-      let v := eval vm_compute in (if a =? 0 then @Err Z EDivZero else chk U64 (x ÷ a)) in
-      change (if a =? 0 then Err EDivZero else chk U64 (x ÷ a)) with v
-  end; xstep;
-  match goal with |- context [wrap I32 ?k] => change (wrap I32 k) with (Z.of_nat (length tab)) end.
-
-(* the memory holds the program's global blocks at their indices *)
-Definition globals_at (m : mem) : Prop := forall g blk, nth_error cglobals g = Some blk -> nth_error m g = Some blk.
-
 Theorem tr_uc_isdw m c d fuel : globals_at m -> int_ok c -> (length dwchars < fuel)%nat ->
   callf cprog fuel (S (S d)) F_uc_isdw [VInt c] m = Ok (VInt (b2z (uc_isdw c)), m).
 Proof.
@@ -170,25 +119,6 @@ Proof.
   - vm_compute. discriminate.
   - apply tfind_is_membership. exact S2.
 Qed.
-
-Ltac bool_cases :=
-  repeat match goal with
-         | |- context [if ?b then _ else _] => destruct b eqn:?; xstep
-         end;
-  repeat match goal with
-         | |- context [?a <=? ?b] => destruct (Z.leb_spec a b)
-         | |- context [?a <? ?b] => destruct (Z.ltb_spec a b)
-         | |- context [?a =? ?b] => destruct (Z.eqb_spec a b)
-         end;
-  repeat match goal with
-         | H : (_ <=? _) = true |- _ => apply Z.leb_le in H
-         | H : (_ <=? _) = false |- _ => apply Z.leb_gt in H
-         | H : (_ <? _) = true |- _ => apply Z.ltb_lt in H
-         | H : (_ <? _) = false |- _ => apply Z.ltb_ge in H
-         | H : (_ =? _) = true |- _ => apply Z.eqb_eq in H
-         | H : (_ =? _) = false |- _ => apply Z.eqb_neq in H
-         end;
-  cbn [andb orb b2z]; try reflexivity; exfalso; lia.
 
 Theorem tr_uc_acomb m c d fuel : int_ok c ->
   callf cprog fuel (S d) F_uc_acomb [VInt c] m = Ok (VInt (b2z (uc_acomb c)), m).
@@ -256,8 +186,6 @@ Proof. rewrite <- (Nat.add_0_r o) at 2. rewrite <- nthb_skipn. destruct (skipn o
 Lemma plain_ascii_z : forall c, (c < 256)%N ->
   plain_ascii c = ((Z.of_N c =? 32) || (Z.of_N c =? 9) || (Z.of_N c =? 10) || ((32 <=? Z.of_N c) && (Z.of_N c <? 127))).
 Proof. byte_fact. Qed.
-Ltac xif := repeat (match goal with |- context [if ?b then _ else _] => destruct b eqn:? end; xstep).
-
 Theorem tr_uc_isbell m b s o d fuel : globals_at m ->
   str_at m b s -> bytes_lt256 s -> (o + uc_len_b (nthb s o) - 1 <= length s)%nat -> (o <= length s)%nat ->
   (fuel_tabs <= fuel)%nat ->
